@@ -276,10 +276,10 @@ Qed.
 
 
 Lemma list_comp_case f : Q_fill c fx m f -> forall data cap rl p vs w' cp,
-  hinv data -> wf_ptr m p -> caligned p -> den true m 0 [] p (VList LComp vs) -> forallb cdom vs = true ->
+  hinv data -> wf_ptr m p -> caligned p -> den true m 0 [] p (VList LComp vs) ->
   canonical_list c fx (S f) (dstw data cap m rl) 0 p = KOk (w', cp) -> Qconcl m data (VList LComp vs) w' cp.
 Proof.
-  intros HF data cap rl p vs w' cp Hi Hwf Hcal D Hsd H.
+  intros HF data cap rl p vs w' cp Hi Hwf Hcal D H.
   destruct (den_comp_inv _ _ D) as (Hv & Hk & Hb & Hc & Hws & Lvs & K).
   destruct (Hcal Hc) as [Hal _].
   destruct (Hwf Hv) as (Hseg & Hobj). unfold wf_obj in Hobj. rewrite Hk, Hb in Hobj.
@@ -409,13 +409,9 @@ Proof.
     assert (Ale : aligned se) by (intros _; rewrite Cz; exact Hal).
     destruct (Shape i Hin) as (ws & ps & Ev & Lws & Lps).
     rewrite Ev in De.
-    assert (SDi : forallb cdom ps = true).
-    { assert (SD0 : cdom (nthv vs i) = true).
-      { unfold nthv. eapply forallb_In; [exact Hsd|]. apply nth_In. unfold zlen in *. lia. }
-      rewrite Ev in SD0. exact SD0. }
     assert (Hdst : dst_at de A dn pn) by (unfold dst_at, de; cbn; repeat split; reflexivity).
     destruct (HF data0 cap0 rl0 de se ws ps A dn pn w0 Hinv0 Hdst ltac:(unfold A, bw in *; nia) ltac:(unfold A; lia)
-                 ltac:(lia) Bpn ltac:(unfold A, bw in *; nia) Ve Kse We Ale De SDi ltac:(lia) ltac:(lia) Hs0)
+                 ltac:(lia) Bpn ltac:(unfold A, bw in *; nia) Ve Kse We Ale De ltac:(lia) ltac:(lia) Hs0)
       as (pwords & kids & cap2 & rl2 & Lp & -> & Hinv2 & Hc0).
     exists (firstn (Z.to_nat dn) ws ++ pwords), kids, cap2, rl2.
     assert (Lf : zlen (firstn (Z.to_nat dn) ws) = dn) by (unfold zlen in *; rewrite firstn_length; lia).
